@@ -572,6 +572,14 @@ func (d *Driver) judgeC13() {
 			if op.Inst == c.Inst && op.Gen == c.Gen && (op.Kind == "create" || op.Kind == "update") && op.Applied && op.OK && op.Err == nil &&
 				op.SRet <= c.Step && op.New != nil && op.New.P.OK && op.New.P.Token == c.Token && op.New.P.ID == d.inst(c.Inst).cfg.ID && !strings.HasPrefix(op.Caller, "heartbeatLoop") {
 				own = true
+				// "... other than by legitimate preemption": the write the claim rests on replaced a
+				// live, well-formed record of somebody else only if takeover is enabled and the
+				// instance's priority is strictly higher than the one stored in that record
+				if prev := op.PrevLive; op.Kind == "update" && prev != nil && !(prev.Writer == op.Inst && prev.Gen == op.Gen) && prev.P.OK && malformedPayload(prev.Val) == "" {
+					if cfg := d.inst(c.Inst).cfg; !(cfg.Takeover && cfg.Prio > prev.P.Prio) {
+						d.h.violate("C13", "promoted-by-illegitimate-replacement/"+callerSig(op.Caller), fmt.Sprintf("i%d.%d (prio %d, takeover %v) claimed leadership at %v on a write that replaced the live record seq=%d %.80q written by i%d", c.Inst, c.Gen, cfg.Prio, cfg.Takeover, c.T, prev.Seq, prev.Val, prev.Writer), c.T, c.Step)
+					}
+				}
 			}
 		}
 		if !own {
